@@ -3,7 +3,7 @@ PROP = dict(
   level='other',
   strict_obligations=True,
   obligations=['kbq.slot.any_pointer', 'kfq.slot.any_pointer', 'scq.enqueue.finalized_fails', 'scq.enqueue.appends', 'scq.catchup.keeps_finalized', 'scq.finalize.sets',
-               'ram.node_dtor.owned_only', 'ram.dtor.each_node_once', 'ram.push.accepts_once', 'ram.push.rollback', 'ram.push.throw_keeps_value', 'ram.pop.hands_over_once', 'ram.push.null_rejected', 'msq.push.owns', 'msq.pop.owns', 'msq.dtor.owns', 'msq.T.lifecycle', 'pqt.*', 'kbq.dtor.each_once', 'kbq.push.reject', 'kbq.push.stores', 'kfq.delete_remaining.each_once', 'kfq.dtor.each_once', 'kfq.dtor.segments_released', 'kfq.retire.once_empty', 'kfq.push.stores',
+               'ram.node_dtor.owned_only', 'ram.dtor.each_node_once', 'ram.push.accepts_once', 'ram.push.rollback', 'ram.push.throw_keeps_value', 'ram.pop.hands_over_once', 'ram.push.null_rejected', 'msq.push.owns', 'msq.pop.owns', 'msq.dtor.owns', 'msq.T.lifecycle', 'pqt.*', 'kbq.dtor.each_once', 'kbq.push.reject', 'kbq.push.stores', 'kfq.delete_remaining.each_once', 'kfq.dtor.each_once', 'kfq.dtor.segments_released', 'kfq.retire.once_empty', 'kfq.push.stores', 'kfq.push.validate', 'kbq.push.validate',
                'vbq.dtor.owns', 'vbq.cell.lifetime', 'vbq.push.accepted_owned', 'vbq.push.rejected_stays_with_caller', 'vbq.pop.destroys_once', 'vbq.pop.lambda_contract',
                'vbq.pop.commit', 'vbq.push.commit',
                'nbq.push.rejected_untouched', 'nbq.pop.destroy_before_release', 'nbq.own.exactly_once', 'nbq.dtor.owns', 'nbq.push.publish_order', 'nbq.inv.preserved',
